@@ -368,3 +368,6 @@ Proof.
   split; [exact Hh|]. split; [exact (hequiv_cequiv _ _ Hh)|].
   exact (run_strategy_fv_incl fuel _ s F G portfolio_ht_fv Hrun).
 Qed.
+Theorem ht_portfolio_fv fuel s F G :
+  run_strategy fuel portfolio_ht s F = Some G -> incl (free_variables G) (free_variables F).
+Proof. intros Hrun. exact (proj2 (proj2 (ht_portfolio_ok fuel s F G Hrun))). Qed.
